@@ -35,7 +35,8 @@ TRUSTED_BASE = [
 ASSUMPTIONS = ["NaN handling, time_threshold, logging, nfev/njev/nhev not modelled",
                "CG stopping parameters derived from the energy history (cg_absdelta, cg_resnorm with norm_ord=1) are not "
                "modelled: in model-compared cases the CG configuration is pinned through cg_kwargs",
-               "_trust_ncg: decision logic modelled with the sub-problem solver as an oracle; tie by oracle on the real code"]
+               "_trust_ncg: decision logic modelled with the sub-problem solver as an oracle; tie by replaying the recorded "
+               "answers of the real _cg_steihaug_subproblem (host callback) through the model"]
 
 XTOL = 1e-6
 MARGIN = 1e-7
